@@ -76,7 +76,8 @@ def is_anyish(T):
 class Oracle:
     """acceptance (C01), routing and tightness (C02) over a class table (mme.table)"""
 
-    def __init__(self, tab, first_match: FirstMatch, framework: str, name_to_key=None):
+    def __init__(self, tab, first_match: FirstMatch, framework: str, name_to_key=None, literal_rule=None):
+        self.literal_rule = literal_rule  # {"enabled": bool, "max": int} or None (rule for a bare `str` member not judged)
         self.tab = tab
         self.by_cls = {info.cls: info for info in tab.values()}
         self.fm = first_match
@@ -336,6 +337,19 @@ class Oracle:
                 elif is_pseudo(M):
                     ok = any(self.fm(v) is M for v in bv)
                     why = "no routed string is detected as this pseudo-type"
+                elif M is str and ok and self.literal_rule is not None and self.literal_rule["enabled"]:
+                    # documented widenings only: literals overflow to str (a string of >= 20 chars, > 15 distinct, or as many as
+                    # the configured maximum), or several pseudo-types collapse to str
+                    strs = [v for v in vals if type(v) is str]
+                    plain = {v for v in strs if self.fm(v) is None}
+                    pseudo = {self.fm(v).__name__ for v in strs if self.fm(v) is not None}
+                    conflict = len(pseudo) >= 2 and pseudo != {"IntString", "FloatString"}
+                    overflow = any(len(x) >= 20 for x in plain) or len(plain) > 15 or len(plain) >= self.literal_rule["max"]
+                    self.stats["str_members"] = self.stats.get("str_members", 0) + 1
+                    if not (conflict or overflow):
+                        ok = False
+                        why = (f"str although the {len(plain)} plain strings {short(sorted(plain), 80)} fit a Literal (limit {self.literal_rule['max']}) and the "
+                               f"pseudo-types seen ({sorted(pseudo)}) do not conflict")
                 elif org is Literal:
                     self.stats["literals"] += 1
                     plain = {v for v in vals if type(v) is str and self.fm(v) is None}
